@@ -20,6 +20,7 @@ NOT_DECIDED = ('the floating-point value of any derivative (the exact rules deci
 TECHNIQUE = 'axis-tag dataflow, index-sum identities in polynomial normal form, call-contract guards; bounded index-skeleton interpretation for definedness'
 DECIDES += (" [ABSTRACT INTERPRETATION, exact] A36S / A34S: every derivative S^(k,l), k + l <= order, of the default and the alternative evaluators is the exact (double) sum over symbolic basis-derivative tables and (derivative) control points, zero above the degrees; RQ2: A4.2 / A4.4 are identities of rational functions in symbolic A^(k,l), w^(k,l) with exact binomials for orders 0..3 and every pattern of vanishing weight derivatives; HD3: hodographs on recorder shapes keep the parametrisation of their input (deep copy or the input's normalize_kv) and take degrees, knots and nets of their own differentiated directions; FD2: the binomial is not truncated from a float quotient PK3: curve_deriv_cpts / surface_deriv_cpts are A3.3 / A3.7 exactly on rational knots and symbolic control points (AX6, BC1, RQ1, A34, HD1, HD2, PK1, PK2 only corroborate).")
 DECIDES += (' BF3 (shared with C03): the derivative tables the evaluators combine are the exact derivatives of the Cox-de Boor polynomials, zero above the degree.')
+DECIDES += (' VN2: vector_normalize returns v / |v| (or raises for the zero vector) and vector_magnitude sqrt(v . v), on symbolic 2-D / 3-D vectors with every threshold comparison taken both ways.')
 
 
 def site(fi, node=None):
